@@ -139,6 +139,7 @@ func faultPoints(sc scenario) []fault {
 			fs = append(fs, fault{Kind: "kill-defer", Pkg: p.Dir, At: i})
 		}
 		fs = append(fs, fault{Kind: "bad-syntax", Pkg: p.Dir, At: 0}, fault{Kind: "bad-syntax", Pkg: p.Dir, At: nt - 1})
+		fs = append(fs, fault{Kind: "bad-syntax", Pkg: p.Dir, At: nt - 1, Others: "tail"})
 		for _, oth := range []string{"ignore", "skip"} {
 			fs = append(fs, fault{Kind: "bad-syntax", Pkg: p.Dir, At: 0, Others: oth}, fault{Kind: "bad-syntax", Pkg: p.Dir, At: nt - 1, Others: oth},
 				fault{Kind: "type-error", Pkg: p.Dir, At: 0, Others: oth}, fault{Kind: "type-error", Pkg: p.Dir, At: nt - 1, Others: oth})
@@ -198,6 +199,9 @@ func gens(sc scenario, f fault, salt string) []specgen.GenSpec {
 			bad.Pkg[p] = specgen.Behav{Mode: "defer-error", At: f.At, Salt: salt, Defers: 1}
 		case "bad-syntax":
 			bad.Pkg[p] = specgen.Behav{Mode: "bad-syntax", At: f.At, Salt: salt, Defers: 1, Others: f.Others}
+			if f.Others == "tail" {
+				bad.Pkg[p] = specgen.Behav{Mode: "bad-syntax-tail", At: f.At, Salt: salt, Defers: 1}
+			}
 		case "alias-error":
 			bad.Pkg[p] = specgen.Behav{Mode: "alias-error", Salt: salt, Defers: 1}
 		case "wrapped-skip":
